@@ -85,3 +85,8 @@ Theorem C03_deleted_only_when_arrives_any : forall t s t',
       is_fin_acked t' = true)).
 Proof. exact segment_arrives_close. Qed.
 Print Assumptions C03_deleted_only_when_arrives_any.
+
+(* rfc_edge is exactly "stay" or one of the fourteen pairs of rfc_table *)
+Theorem C03_edge_table : forall a b, rfc_edge a b = true <-> a = b \/ In (a, b) rfc_table.
+Proof. exact rfc_edge_table. Qed.
+Print Assumptions C03_edge_table.
